@@ -1421,10 +1421,12 @@ impl NetworkController {
     /// Ban an ip
     pub fn ban(&self, address: IpNetwork, ban_until: u64, ban_reason: String) {
         self.disconnect_peers_in_ip_range(address, &ban_reason);
+        // `ban_network` takes a duration, the caller passes the instant the ban ends
+        let timeout_ms = ban_until.saturating_sub(ckb_systemtime::unix_time_as_millis());
         self.network_state
             .peer_store
             .lock()
-            .ban_network(address, ban_until, ban_reason)
+            .ban_network(address, timeout_ms, ban_reason)
     }
 
     /// Unban an ip
